@@ -193,7 +193,7 @@ func c02MsgSpec() *jgen.Spec {
 
 // ---- planting ---------------------------------------------------------------
 
-var plantValues = []interface{}{"a", 1.0, M{"a": "b"}, []interface{}{"b"}}
+var plantValues = []interface{}{"a", 1.0, nil, M{"a": "b"}, []interface{}{"b"}}
 
 // instantiate substitutes sigma into p (anonymous variables get "anon"; a property variable its key).
 func instantiate(p interface{}, sigma M) interface{} {
@@ -461,7 +461,7 @@ func C02(c *vh.Ctx) {
 		c.Count("a_patterns", int64(len(pats)))
 		c.Count("a_messages", int64(len(msgs)))
 	}
-	c.Rule("(a) every (pattern, message) over the two-letter alphabet (keys {a,b}, atoms {\"a\",\"b\",1}, variables ?x ?y ? ??o, property variables ?x ?) up to the node bounds, messages without duplicate scalar array members, patterns without duplicate scalar array members: the reference backtracking enumerator's embeddings must all be returned, and for plain patterns the result set must equal them; cases where a repeated variable would take a structured value are skipped (side condition). (b) planting: every pattern up to a larger bound x every assignment of values to its variables (side conditions enforced) x every message = instantiated pattern plus up to k insertions (extra keys in any map; extra elements in any array incl. near-copies of structured siblings, front and back) x pre-binding none/each single variable: the planted assignment must be returned. (d) in context: every pair with a pattern of up to 3 nodes once more as one property of a larger pattern whose other property yields two candidate binding sets (an array variable over two elements evaluated before it, a property variable over two keys evaluated after it). (e) look-alikes: arrays and maps holding scalars of different JSON types that print alike (1 / \"1\", true / \"true\", null / \"null\", 0 / false / \"\"). (f) Go-typed numbers: every small pair that contains a number, and bound variables / inequality bounds, with the numbers of the message, the pattern, the bindings or all of them typed int, int64, int32 or float32: no result of the float64 rendering may be lost. (c) wide arrays: 2-5 structured pattern elements with distinct variables (with/without an array variable) against as many or one more ambiguous message elements: all injections must be returned. Odometer, duplicate-free; non-trivial = at least one embedding exists.")
+	c.Rule("(a) every (pattern, message) over the two-letter alphabet (keys {a,b}, atoms {\"a\",\"b\",1}, variables ?x ?y ? ??o, property variables ?x ?) up to the node bounds, messages without duplicate scalar array members, patterns without duplicate scalar array members: the reference backtracking enumerator's embeddings must all be returned, and for plain patterns the result set must equal them; cases where a repeated variable would take a structured value are skipped (side condition). (b) planting: every pattern up to a larger bound x every assignment of values to its variables (side conditions enforced) x every message = instantiated pattern plus up to k insertions (extra keys in any map; extra elements in any array incl. near-copies of structured siblings, front and back) x pre-binding none/each single variable: the planted assignment must be returned. (d) in context: every pair with a pattern of up to 3 nodes once more as one property of a larger pattern whose other property yields two candidate binding sets (an array variable over two elements evaluated before it, a property variable over two keys evaluated after it). (e) look-alikes: arrays and maps holding scalars of different JSON types that print alike (1 / \"1\", true / \"true\", null / \"null\", 0 / false / \"\"). (f) Go-typed numbers: every small pair that contains a number, and bound variables / inequality bounds, with the numbers of the message, the pattern, the bindings or all of them typed int, int64, int32 or float32: no result of the float64 rendering may be lost. (g) nulls and constant strings that contain question marks without being variables, under keys that are present, absent or null in the message. (h) map patterns in which two or three properties each admit several candidates (array variables, structured array elements, property variables): the full product of candidates must be returned. (c) wide arrays: 2-5 structured pattern elements with distinct variables (with/without an array variable) against as many or one more ambiguous message elements: all injections must be returned. Odometer, duplicate-free; non-trivial = at least one embedding exists.")
 	for i, p := range pats {
 		if !c.Mine(uint64(i)) {
 			continue
@@ -503,6 +503,16 @@ func C02(c *vh.Ctx) {
 		if c.Mine(uint64(i)) {
 			completeOne(c, c02Case{P: cs.P, M: cs.M, B: cs.B}, false)
 			c.Count("e_evaluations", 1)
+		}
+	}
+	// (g) nulls and constant strings that contain question marks; (h) several set-valued properties
+	for i, cs := range append(qmCases(), multiSetCases()...) {
+		if dupScalars(cs.P) || dupScalars(cs.M) {
+			continue // arrays are sets (side condition of the property)
+		}
+		if c.Mine(uint64(i)) {
+			completeOne(c, c02Case{P: cs.P, M: cs.M, B: cs.B}, false)
+			c.Count("g_h_evaluations", 1)
 		}
 	}
 	// (f) numbers typed as a Go host types them
